@@ -305,7 +305,7 @@ class Check:
         self.write_evidence(results, violations, known_lines)
         if os.environ.get("VERIF_UPDATE_LOCK") == "1":
             lock[pid] = sorted(r.name for r in results if r.status == "proved")
-            lock.setdefault("_kinds", {})[pid] = {r.name: r.kind for r in results if r.status == "proved" and r.kind in ("frame",)}
+            lock.setdefault("_kinds", {})[pid] = {r.name: r.kind for r in results if r.status == "proved" and r.kind in ("frame", "bounds")}
             with open(os.path.join(VERIF, "obligations.lock.json"), "w") as f:
                 json.dump(lock, f, indent=0, sort_keys=True)
         else:
@@ -334,8 +334,9 @@ class Check:
             # frame obligations are generated per mutation *site* of the current source: a site that no longer exists is not "lost" as long as
             # the whole-module analysis completed and every site that exists now is proved (no undecided entry, nothing refuted)
             site_kinds = lock.get("_kinds", {}).get(pid, {})
-            if not self.undecided and all(r.status == "proved" for r in results if r.kind == "frame"):
-                lost = [n for n in lost if site_kinds.get(n) != "frame"]
+            # ... and in-bounds obligations exist per subscript of the current source: the same rule applies to them
+            if not self.undecided and all(r.status == "proved" for r in results if r.kind in ("frame", "bounds")):
+                lost = [n for n in lost if site_kinds.get(n) not in ("frame", "bounds")]
             if lost:
                 print(f"UNDECIDED property={pid} {len(lost)} obligation(s) proved on the baseline lock are not proved now, e.g. {lost[:3]}")
                 return 2
